@@ -16,6 +16,7 @@ NAMES = ["t1", "t10", "t20-" + "\u00e9\u20ac" * 10, "t\u00fc", "t3xx-" + "\u00e9
 SHAPES = {
     "single": (1, []),
     "chain3": (3, [(0, 1), (1, 2)]),
+    "chain4": (4, [(0, 1), (1, 2), (2, 3)]),
     "fork": (3, [(1, 0), (2, 0)]),
     "join": (3, [(0, 1), (0, 2)]),
     "diamond": (4, [(0, 1), (0, 2), (1, 3), (2, 3)]),
@@ -132,12 +133,16 @@ def c04_scenarios(tier):
             modes = [("all", None, [], None, False)]
             if len(paths) > 1:
                 modes.append(("changed", "head", paths[: (len(paths) + 1) // 2], None, False))
+                if len(paths) >= 4:
+                    # only the two ends are touched: the affected set has a hole (a target in the middle of a
+                    # dependency path is not part of the run)
+                    modes.append(("changed-ends", "head", [paths[0], paths[-1]], None, False))
                 modes.append(("deps", None, [], [paths[0]], True))
                 # -t naming a set that is already closed under dependencies (--deps adds nothing), in
                 # an order that is not a dependency order
                 modes.append(("deps-closed", None, [], list(reversed(paths)), True))
             if tier == "quick" and len(cmds) > 1:
-                modes = modes[:1] + modes[2:4]
+                modes = [m for m in modes if m[0] in ("all", "deps", "deps-closed")]
             for mname, cp, changed, explicit, deps in modes:
                 a = list(args)
                 if explicit:
